@@ -386,6 +386,22 @@ def synthetic_fields(ctx, rng, k):
         compare(ctx, M, "identity(matrix)", NH.identity(g), I, np.ones_like(I), mech="np-field:identity", rtol=0)
         compare(ctx, M, "identity(scalar,N)", NH.identity(sv, d), I, np.ones_like(I), mech="np-field:identity", rtol=0)
         compare(ctx, M, "identity(scalar,N=)", NH.identity(sv, N=d), I, np.ones_like(I), mech="np-field:identity", rtol=0)
+        # an explicit N is the size, whatever could be deduced from the field (3x3 tensors of a plane problem, 2x2 of a
+        # 3-D one, 1x1)
+        for N_ in sorted({1, 2, 3, 4} - {d}):
+            IN = d_eye(np.ones((nel, nq)), N_)[0]
+            for nm, arg in (("vector", val), ("matrix", g)):
+                for how, got in ((f"identity({nm},{N_})", lambda: NH.identity(arg, N_)), (f"identity({nm},N={N_})", lambda: NH.identity(arg, N=N_))):
+                    try:
+                        out = got()
+                    except Exception as ex:  # noqa: BLE001
+                        ctx.check(M, False, mech="np-field:identity-explicit-N-raises", helper=how, error=repr(ex)[:120])
+                        continue
+                    if np.shape(out) != IN.shape:
+                        ctx.check(M, False, mech="np-field:identity-explicit-N-ignored", helper=how, shape=np.shape(out), want=IN.shape)
+                    else:
+                        compare(ctx, M, how, out, IN, np.ones_like(IN), mech="np-field:identity-explicit-N", rtol=0)
+        ctx.reached("identity:explicit-N-differs-from-the-field")
     try:
         NH.identity(R())
         raised = False
